@@ -95,12 +95,30 @@ def dotted_suffix(s):
 # ------------------------------------------------------------------ numbers
 
 
+def _int_blanks():
+    # the blanks the language's int() strips: str.isspace() minus the four ASCII separator
+    # controls U+001C..U+001F (a quirk of int(); established by asking int() itself)
+    out = set()
+    for cp in list(range(0x3001)) + [0xFEFF]:
+        c = chr(cp)
+        if c.isspace():
+            try:
+                int("1" + c)
+                out.add(c)
+            except ValueError:
+                pass
+    return out
+
+
+INT_BLANKS = _int_blanks()
+
+
 def parse_int(s):
     """Python's int(str) syntax, by hand: blanks, sign, digits with single '_' between."""
     i, j = 0, len(s)
-    while i < j and s[i].isspace():
+    while i < j and s[i] in INT_BLANKS:
         i += 1
-    while j > i and s[j - 1].isspace():
+    while j > i and s[j - 1] in INT_BLANKS:
         j -= 1
     t = s[i:j]
     if not t:
